@@ -763,6 +763,29 @@ func genKafkaStages(r *Rand, tier string, emit func(sx.Sx)) {
 			emit(kafkaConv(g, []kafkaExchange{e}))
 		}
 	}
+	// a request naming tens of thousands of topics (it fits in the 1 MB message cap): the entry must still be
+	// analysed, summarised and represented, and its own queries stay valid and true
+	for _, a := range kgoApis {
+		if a.key != 3 {
+			continue
+		}
+		many := make([]string, 60020)
+		for i := range many {
+			many[i] = "t"
+		}
+		for attempt := 0; attempt < 20; attempt++ {
+			corr++
+			g.forced, g.forcedCount = many, 60000
+			e := g.exchange(a, a.min+1, corr)
+			g.forced, g.forcedCount = nil, 0
+			// the draw may make the topic list null and spend the count elsewhere: take the exchange whose
+			// request carries the names and whose halves both fit the message cap
+			if len(e.qw) > 150000 && len(e.qw) < 900000 && len(e.rw) < 900000 {
+				emit(kafkaConv(g, []kafkaExchange{e}))
+				break
+			}
+		}
+	}
 	// every (api, version) the dissector has a layout for, written along that layout
 	genKafkaLayoutStages(r, rounds/2, emit)
 }
